@@ -24,7 +24,8 @@ RULE = ("(a) generated interfaces x 1 canonical + k random renderings of each (p
         ' ; two blocks of one namespace (D48 shape); a reply typed by a name shared with a global element; attribute groups nested two deep in every order'
         ' ; two port types sharing an operation name under every order of sections; blocks that bind nothing to their own namespace'
         ' ; a group referred to twice; defaults of referenced elements; an element and a type sharing a name; the first schema node below outer prefix bindings'
-        ' ; attributes inline or by group')
+        ' ; attributes inline or by group'
+        ' ; untyped elements under odd bindings of xs; the split-namespace stream of C12')
 ASSUMPTIONS = ["anonymous inline types are used only where the abstract interface never needs the type's name "
                "(not in rpc/encoded interfaces, not for derived or base types, not for operation parameters)",
                "decoded objects are compared without their class names when a rendering inlines types "
